@@ -26,6 +26,8 @@ Clauses(e) ==
           \* agree to the stopping tolerance only (measured 2e-3 on the unchanged tree; 5e-2 allowed)
           <<"same-value-at-common-frequencies", ~Admissible(e) \/ e.raised \/
                 Small(e.dev, IF e.cls = "MultiTapering:adapt" THEN 50000000 ELSE Tol)>>,
+          \* "frequencies common to both grids" are read off the axis each object reports: it must be the requested grid
+          <<"object-reports-the-requested-grid", ~Admissible(e) \/ e.raised \/ ~Has(e, "grid_dev") \/ Small(e.grid_dev, 1000)>>,
           <<"length-of-finer-grid", ~Admissible(e) \/ e.raised \/ e.len_ok>>,
           <<"parameters-independent-of-NFFT", ~Admissible(e) \/ e.raised \/ Small(e.par_dev, 1000)>> }
     ELSE { <<"unknown-event", FALSE>> }
